@@ -109,6 +109,58 @@ def option_histories(ctx, d, fresh_binary):
     ctx.cov["option_histories"] = {"options_in_the_usage_text": names, "runs": nrun, "cold_profile_syscalls": len(want)}
 
 
+def publish_kill(ctx, d, fresh_binary, want_names):
+    """ProfCache!Kill at the step that PUBLISHES the listing (rename): the temporary directory of the process lies on another file system
+    than the cache directory (TMPDIR on tmpfs), the listing is large (64 MB of padding between the first and the other call sites), and
+    the profiler is killed the moment a file appears under the cache name - complete (a rename) or not."""
+    import threading
+    import time
+    if not os.path.isdir("/dev/shm"):
+        ctx.note("no /dev/shm: the kill at the publishing step is not staged")
+        return
+    fakedir = os.path.join(d, "fakego_big")
+    chunks = listing_chunks()
+    pad = ("\n".join(cmdfam.site_function(900, "bigpad", 0, pad=150)[:-3] + ["  main.go:1\t0x1\t\tc3\t\t\tRET\t"]) + "\n")
+    pad = pad * (64 * 1024 * 1024 // len(pad))
+    cmdfam.make_fake_go(fakedir, [chunks[0], pad] + chunks[1:])
+    tmp = "/dev/shm/verif-c17-%d" % os.getpid()
+    os.makedirs(tmp, exist_ok=True)
+    try:
+        for k in range(2):
+            b = fresh_binary("publish%d" % k)
+            cache = cmdfam.cache_path(b)
+            env = {"PATH": fakedir + ":/usr/bin:/bin", "FAKEGO_DIR": fakedir, "HOME": "/root", "TMPDIR": tmp}
+            p = subprocess.Popen([os.path.join(d, "seccomp-profiler"), "-format", "config", b], stdout=subprocess.DEVNULL, stderr=subprocess.DEVNULL, env=env, cwd="/")
+            seen = {}
+
+            def watch():
+                t0 = time.time()
+                while p.poll() is None and time.time() - t0 < 120:
+                    try:
+                        seen["size"] = os.path.getsize(cache)
+                        p.kill()
+                        return
+                    except OSError:
+                        pass
+            w = threading.Thread(target=watch)
+            w.start()
+            p.wait()
+            w.join()
+            cmdfam.set_mode(fakedir, "ok")
+            second = run_profiler(d, fakedir, b, timeout=300)
+            ctx.cov["evaluations"] += 1
+            ctx.cov["kills_at_the_publishing_step"] = ctx.cov.get("kills_at_the_publishing_step", 0) + (1 if "size" in seen else 0)
+            if second is None:
+                ctx.skip("run after a kill at the publishing step timed out")
+                continue
+            if second["rc"] == 0 and sorted(second["names"]) != sorted(want_names):
+                ctx.violation("after a first run that was killed the moment a file appeared under the cache name (%s bytes then; temporary directory on another file system) the next run %sprinted the profile %s; a cold-cache run gives %s"
+                              % (seen.get("size"), "reused the cache and " if second["cached"] else "", second["names"], sorted(want_names)),
+                              {"fate": "killed at the publishing step, TMPDIR on tmpfs", "second_run": second, "cold_profile": sorted(want_names), "admissible": "the cold-cache profile, or an error", "how": "./check C17 quick"})
+    finally:
+        shutil.rmtree(tmp, ignore_errors=True)
+
+
 def check(ctx, replay=None):
     th = ctx.tier == "thorough"
     d = cmdfam.build_cmds(ctx)
@@ -278,6 +330,7 @@ def check(ctx, replay=None):
         # an earlier run with any of the command's OPTIONS, then a normal run - with the real toolchain, so that options the command hands
         # on to the disassembler mean what they mean there. The options are read from the command's own usage text (a new one is swept too).
         option_histories(ctx, d, fresh_binary)
+        publish_kill(ctx, d, fresh_binary, want)
     finally:
         for c in created:
             for p in [c] + [os.path.join(os.path.dirname(c), x) for x in (os.listdir(os.path.dirname(c)) if os.path.isdir(os.path.dirname(c)) else []) if x.startswith(os.path.basename(c))]:
